@@ -760,8 +760,15 @@ def explain_description(
     txn_date: Optional[date] = None,
     transforms: Optional[List[Tuple[str, str]]] = None,
     field: Optional[Dict[str, str]] = None,
+    data_source: Optional[str] = None,
+    location: Optional[str] = None,
+    data_sources: Optional[Dict[str, List[Dict]]] = None,
 ) -> dict:
     """Trace how a description is processed and matched.
+
+    The classification is the one `tally up` applies: it is computed by
+    normalize_merchant() itself (same transforms, rule mode, variables, let: bindings,
+    tag-only rules and supplemental sources), not by a second implementation.
 
     Returns a dict with detailed information about the matching process:
     - original: The original description
@@ -772,80 +779,41 @@ def explain_description(
     - subcategory: Resulting subcategory
     - is_unknown: Whether this is an unknown merchant
     """
-    from tally import expr_parser
-
-    # Apply field transforms
-    transaction = {'description': description, 'amount': amount or 0, 'field': field}
+    # Apply field transforms on a copy, to be able to show the transformed description
+    transaction = {'description': description, 'amount': amount or 0, 'field': dict(field) if field else field,
+                   'source': data_source, 'location': location}
     if txn_date:
         transaction['date'] = txn_date
     if transforms:
         apply_transforms(transaction, transforms)
     transformed_desc = transaction.get('description', description)
 
+    merchant, category, subcategory, match_info = normalize_merchant(
+        description, rules, amount=amount, txn_date=txn_date, field=field,
+        data_source=data_source, transforms=transforms, location=location,
+        data_sources=data_sources,
+    )
+
     result = {
         'original': description,
         'transformed': transformed_desc if transformed_desc != description else None,
         'matched_rule': None,
-        'merchant': None,
-        'category': None,
-        'subcategory': None,
+        'merchant': merchant,
+        'category': category,
+        'subcategory': subcategory,
         'is_unknown': False,
     }
 
-    # Try pattern matching against transformed description
-    desc_upper = transformed_desc.upper()
-
-    for rule in rules:
-        # Handle various formats
-        tags = []
-        if len(rule) == 7:
-            pattern, merchant, category, subcategory, parsed, source, tags = rule
-        elif len(rule) == 6:
-            pattern, merchant, category, subcategory, parsed, source = rule
-        elif len(rule) == 5:
-            pattern, merchant, category, subcategory, parsed = rule
-            source = 'unknown'
-        else:
-            pattern, merchant, category, subcategory = rule
-            parsed = None
-            source = 'unknown'
-
-        try:
-            # Determine if this is an expression pattern or a regex pattern
-            if _is_expression_pattern(pattern):
-                # Use expression parser for expression-based rules
-                # Use the already-transformed transaction
-                matches = expr_parser.matches_transaction(pattern, transaction)
-
-                if not matches:
-                    continue
-            else:
-                # Legacy regex pattern matching
-                if not re.search(pattern, desc_upper, re.IGNORECASE):
-                    continue
-
-                # If pattern has modifiers, check them
-                if parsed and (parsed.amount_conditions or parsed.date_conditions):
-                    if not check_all_conditions(parsed, amount, txn_date):
-                        continue
-
-            result['matched_rule'] = {
-                'pattern': pattern,
-                'source': source,
-                'matched_on': 'transformed' if transformed_desc != description else 'original',
-                'tags': tags,
-            }
-            result['merchant'] = merchant
-            result['category'] = category
-            result['subcategory'] = subcategory
-            return result
-
-        except (re.error, expr_parser.ExpressionError):
-            continue
-
-    # No match - unknown merchant
-    result['is_unknown'] = True
-    result['merchant'] = extract_merchant_name(transformed_desc)
-    result['category'] = 'Unknown'
-    result['subcategory'] = 'Unknown'
+    if match_info and match_info.get('pattern') is not None:
+        result['matched_rule'] = {
+            'pattern': match_info['pattern'],
+            'source': match_info.get('source', 'unknown'),
+            'matched_on': 'transformed' if transformed_desc != description else 'original',
+            'tags': match_info.get('tags', []),
+        }
+    else:
+        # No categorization rule matched - unknown merchant (tags may still apply)
+        result['is_unknown'] = True
+        if match_info and match_info.get('tags'):
+            result['tags'] = match_info['tags']
     return result
